@@ -160,15 +160,13 @@ func (t Type) ImplementedVariant() string {
 		return ""
 	}
 
-	return t.Hints[HintImplementsVariant].(string)
+	variant, _ := t.Hints[HintImplementsVariant].(string)
+
+	return variant
 }
 
 func (t Type) IsDataqueryVariant() bool {
-	if !t.ImplementsVariant() {
-		return false
-	}
-
-	return t.Hints[HintImplementsVariant].(string) == string(SchemaVariantDataQuery)
+	return t.ImplementedVariant() == string(SchemaVariantDataQuery)
 }
 
 func (t Type) HasHint(hintName string) bool {
